@@ -72,6 +72,8 @@ def plan(tier):
     p.append((S.T2(shared=S.VM1_CHAIN[:2]).variant("/shared=install+customize,ALL-SCHEDULES"), 99, 1))
     if not q:
         p.append((S.T2(shared=S.VM1_CHAIN[:1]).variant("/shared=install,ALL-SCHEDULES"), 99, 4))
+    # configuration matrix: worker kinds x reuse scopes x slot bindings (same selection, default schedule and single deviations)
+    p += S.config_matrix(S.T2, tier)
     return p
 
 
